@@ -174,4 +174,15 @@ theorem getElem?_modifyNth_ne {α} (l : List α) {i j : Nat} (f : α → α) (h 
     (modifyNth l i f)[j]? = l[j]? := by
   rw [getElem?_modifyNth, if_neg h]
 
+
+theorem findIdx_modifyNth {α} (l : List α) (k : Nat) (f : α → α) (q : α → Bool) (h : ∀ x, q (f x) = q x) :
+    Life.findIdx (modifyNth l k f) q = Life.findIdx l q := by
+  rw [findIdx_eq, findIdx_eq]
+  induction l generalizing k with
+  | nil => rfl
+  | cons x xs ih =>
+    cases k with
+    | zero => simp only [modifyNth, List.findIdx?_cons, h]
+    | succ n => simp only [modifyNth, List.findIdx?_cons, ih n]
+
 end LifeL
